@@ -175,9 +175,10 @@ US_MIN = -EPOCH_OFFSET_DAYS * US_PER_DAY                  # 1958-01-01T00:00:00Z
 US_MAX = (65536 - EPOCH_OFFSET_DAYS) * US_PER_DAY - 1     # 2137-06-06T23:59:59.999999Z
 
 
-@obligation(["C14"], "CdsShortTimestamp.from_datetime", verifies=[M + "CdsShortTimestamp.from_datetime", M + "CdsShortTimestamp.empty",
-                                                                  M + "CdsShortTimestamp.__init__", MC + "convert_unix_days_to_ccsds_days"])
-def cds_from_datetime(us: IntRange(US_MIN, US_MAX)):
+FROM_DT = [M + "CdsShortTimestamp.from_datetime", M + "CdsShortTimestamp.empty", M + "CdsShortTimestamp.__init__", MC + "convert_unix_days_to_ccsds_days"]
+
+
+def from_datetime_clauses(us):
     dt = EPOCH70 + datetime.timedelta(microseconds=us)
     r = CdsShortTimestamp.from_datetime(dt)
     ensures("days", r.ccsds_days == us // US_PER_DAY + EPOCH_OFFSET_DAYS)
@@ -188,3 +189,13 @@ def cds_from_datetime(us: IntRange(US_MIN, US_MAX)):
     if us % 1000 == 0:
         back = CdsShortTimestamp(r.ccsds_days, r.ms_of_day)
         ensures("exact-for-whole-ms", both(back.as_datetime() == dt, r.pack() == cds_short_octets(r.ccsds_days, r.ms_of_day)))
+
+
+@obligation(["C14"], "CdsShortTimestamp.from_datetime/since-1970", verifies=FROM_DT)
+def cds_from_datetime_since_1970(us: IntRange(0, US_MAX)):
+    from_datetime_clauses(us)
+
+
+@obligation(["C14"], "CdsShortTimestamp.from_datetime/before-1970", verifies=FROM_DT)
+def cds_from_datetime_before_1970(us: IntRange(US_MIN, -1)):
+    from_datetime_clauses(us)
